@@ -159,6 +159,15 @@ func VerifDir() string {
 	return "/verif"
 }
 
+// OutDir is where evidence and replay files are written (VERIF_OUT_DIR overrides,
+// for trial runs that must not touch the committed evidence).
+func OutDir() string {
+	if d := os.Getenv("VERIF_OUT_DIR"); d != "" {
+		return d
+	}
+	return VerifDir()
+}
+
 func loadKnown(prop string) (map[string]KnownEntry, error) {
 	b, err := os.ReadFile(filepath.Join(VerifDir(), "known_findings.json"))
 	if err != nil {
@@ -353,7 +362,7 @@ func Main(chk *Check, tier string, seed int64, replayPath string) int {
 }
 
 func writeEvidence(prop string, ev map[string]any) error {
-	dir := filepath.Join(VerifDir(), "evidence")
+	dir := filepath.Join(OutDir(), "evidence")
 	if err := os.MkdirAll(dir, 0o755); err != nil {
 		return err
 	}
@@ -387,7 +396,7 @@ type replayFile struct {
 }
 
 func writeReplay(prop string, agg *classAgg) (string, error) {
-	dir := filepath.Join(VerifDir(), "replays", prop)
+	dir := filepath.Join(OutDir(), "replays", prop)
 	if err := os.MkdirAll(dir, 0o755); err != nil {
 		return "", err
 	}
